@@ -72,7 +72,7 @@ func RefDuration(s string) (time.Duration, bool) {
 		var ip int64
 		nd := 0
 		for i < len(s) && s[i] >= '0' && s[i] <= '9' {
-			if ip > (1<<62)/10 {
+			if ip > ((1<<63-1)-int64(s[i]-'0'))/10 {
 				return 0, false
 			}
 			ip = ip*10 + int64(s[i]-'0')
@@ -105,17 +105,347 @@ func RefDuration(s string) (time.Duration, bool) {
 			return 0, false
 		}
 		i = j
-		if ip > (1<<62)/int64(u) {
+		if ip > (1<<63-1)/int64(u) {
 			return 0, false
 		}
 		g := ip * int64(u)
 		if fnum > 0 {
 			g += int64(float64(fnum) * (float64(u) / float64(fden)))
 		}
-		if total > (1<<62)-g {
+		if g < 0 || total > (1<<63-1)-g {
 			return 0, false
 		}
 		total += g
 	}
 	return time.Duration(total), true
+}
+
+// ---------------------------------------------------------------------------
+// C18: liberal denotations. A string has a *liberal* denotation when a reasonable parser
+// could accept it with an unambiguous value (surrounding blanks, a '+' sign, leading zeros);
+// it has a *strict* (canonical) form when it is exactly how the value is normally written.
+// Oracle: accepted => liberal denotation exists and equals the returned value;
+//         strict => must be accepted. Everything in between is don't-care.
+
+// LibDecimal: optional blanks, optional '+', one or more ASCII digits, optional blanks.
+// strict is true when the string is the canonical rendering (no blanks, sign or leading zeros).
+func LibDecimal(s string, max uint64) (v uint64, ok, strict bool) {
+	t := strings.Trim(s, " \t")
+	strict = t == s
+	neg := false
+	if strings.HasPrefix(t, "+") {
+		t = t[1:]
+		strict = false
+	} else if strings.HasPrefix(t, "-") {
+		// "-0" is zero; any other negative number has no denotation here
+		t = t[1:]
+		strict = false
+		neg = true
+	}
+	if len(t) == 0 {
+		return 0, false, false
+	}
+	if neg && strings.Trim(t, "0") != "" {
+		return 0, false, false
+	}
+	if len(t) > 1 && t[0] == '0' {
+		strict = false
+	}
+	for i := 0; i < len(t); i++ {
+		c := t[i]
+		if c < '0' || c > '9' {
+			return 0, false, false
+		}
+		if v > (1<<63)/10 {
+			return 0, false, false
+		}
+		v = v*10 + uint64(c-'0')
+	}
+	if v > max {
+		return 0, false, false
+	}
+	return v, true, strict
+}
+
+// LibPortRange: bound | bound "-" bound.
+func LibPortRange(item string) (r PortRange, ok, strict bool) {
+	ps := strings.Split(item, "-")
+	if len(ps) > 2 {
+		return r, false, false
+	}
+	a, ok, st := LibDecimal(ps[0], 65535)
+	if !ok {
+		return r, false, false
+	}
+	r = PortRange{uint16(a), uint16(a)}
+	if len(ps) == 2 {
+		b, ok2, st2 := LibDecimal(ps[1], 65535)
+		if !ok2 {
+			return r, false, false
+		}
+		r.End = uint16(b)
+		st = st && st2
+	}
+	return r, true, st
+}
+
+// LibPortList: ranges separated by ','.
+func LibPortList(s string) (out []PortRange, ok, strict bool) {
+	strict = true
+	for _, item := range strings.Split(s, ",") {
+		r, ok, st := LibPortRange(item)
+		if !ok {
+			return nil, false, false
+		}
+		strict = strict && st
+		out = append(out, r)
+	}
+	return out, true, strict
+}
+
+// LibLines: file conventions ('#' comment, blanks trimmed, empty lines skipped, LF or CRLF).
+// long is true when some raw line exceeds 65535 bytes (bufio.Scanner's default limit: a
+// parser may refuse such a file).
+func LibLines(content string) (lines []string, long bool) {
+	for _, l := range strings.Split(content, "\n") {
+		if len(l) >= 65535 {
+			long = true
+		}
+		l = strings.TrimSuffix(l, "\r")
+		if i := strings.IndexByte(l, '#'); i >= 0 {
+			l = l[:i]
+		}
+		l = strings.Trim(l, " ")
+		if l == "" {
+			continue
+		}
+		lines = append(lines, l)
+	}
+	return
+}
+
+// LibRate: count ["/" window]; count liberal decimal; window = bare unit | Go duration with
+// an optional '+'. precise=false when the window has a long fraction (float rounding of the
+// two implementations may legitimately differ by a nanosecond): the value is then not compared.
+func LibRate(s string) (n uint64, w time.Duration, ok, strict, precise bool) {
+	precise = true
+	parts := strings.Split(s, "/")
+	if len(parts) > 2 {
+		return
+	}
+	var st bool
+	n, ok, st = LibDecimal(parts[0], 1<<63-1)
+	if !ok {
+		return 0, 0, false, false, true
+	}
+	strict = st && n >= 1 && n <= 1<<31-1
+	if len(parts) == 1 {
+		return n, time.Second, true, strict, true
+	}
+	win := strings.Trim(parts[1], " \t")
+	if win != parts[1] {
+		strict = false
+	}
+	if strings.HasPrefix(win, "+") {
+		win = win[1:]
+		strict = false
+	}
+	if u, isUnit := refUnits[win]; isUnit {
+		return n, u, true, strict, true
+	}
+	if len(win) > 0 && win[0] != '.' && (win[0] < '0' || win[0] > '9') {
+		// a leading bare unit followed by more groups ("h30m"): readable as one unit + the rest
+		win = "1" + win
+		strict = false
+	}
+	d, dok := RefDuration(win)
+	if !dok {
+		return 0, 0, false, false, true
+	}
+	if i := strings.IndexByte(win, '.'); i >= 0 {
+		// count fraction digits of the longest fraction
+		maxf := 0
+		for j := 0; j < len(win); j++ {
+			if win[j] == '.' {
+				k := j + 1
+				for k < len(win) && win[k] >= '0' && win[k] <= '9' {
+					k++
+				}
+				if k-j-1 > maxf {
+					maxf = k - j - 1
+				}
+			}
+		}
+		if maxf > 6 {
+			precise = false
+		}
+		if win[0] == '.' || maxf == 0 {
+			strict = false // ".5s", "1.s" are legal Go durations but not canonical
+		}
+	}
+	if len(win) > 1 && win[0] == '0' && win[1] >= '0' && win[1] <= '9' {
+		strict = false
+	}
+	if d == 0 {
+		strict = false
+	}
+	return n, d, true, strict, precise
+}
+
+// LibUnquote is an independent reading of Go interpreted-string escapes (the mechanism
+// --payload documents): \a \b \f \n \r \t \v \\ \" \xHH \OOO \uXXXX \UXXXXXXXX; raw bytes
+// other than '"', '\\' and newline stand for themselves. rawInvalid reports raw non-UTF-8 input
+// (don't-care). ok=false: no denotation.
+func LibUnquote(s string) (out []byte, ok, rawInvalid bool) {
+	i := 0
+	hexv := func(c byte) int {
+		switch {
+		case c >= '0' && c <= '9':
+			return int(c - '0')
+		case c >= 'a' && c <= 'f':
+			return int(c-'a') + 10
+		case c >= 'A' && c <= 'F':
+			return int(c-'A') + 10
+		}
+		return -1
+	}
+	for i < len(s) {
+		c := s[i]
+		switch {
+		case c == '"' || c == '\n':
+			return nil, false, rawInvalid
+		case c != '\\':
+			if c >= 0x80 {
+				// raw multi-byte: validate UTF-8 by hand
+				n := utf8Len(s[i:])
+				if n == 0 {
+					rawInvalid = true
+					out = append(out, c)
+					i++
+					continue
+				}
+				out = append(out, s[i:i+n]...)
+				i += n
+				continue
+			}
+			out = append(out, c)
+			i++
+			continue
+		}
+		i++
+		if i >= len(s) {
+			return nil, false, rawInvalid
+		}
+		e := s[i]
+		i++
+		switch e {
+		case 'a':
+			out = append(out, 7)
+		case 'b':
+			out = append(out, 8)
+		case 'f':
+			out = append(out, 12)
+		case 'n':
+			out = append(out, 10)
+		case 'r':
+			out = append(out, 13)
+		case 't':
+			out = append(out, 9)
+		case 'v':
+			out = append(out, 11)
+		case '\\':
+			out = append(out, '\\')
+		case '"':
+			out = append(out, '"')
+		case 'x':
+			if i+2 > len(s) || hexv(s[i]) < 0 || hexv(s[i+1]) < 0 {
+				return nil, false, rawInvalid
+			}
+			out = append(out, byte(hexv(s[i])<<4|hexv(s[i+1])))
+			i += 2
+		case 'u', 'U':
+			n := 4
+			if e == 'U' {
+				n = 8
+			}
+			if i+n > len(s) {
+				return nil, false, rawInvalid
+			}
+			var v uint32
+			for k := 0; k < n; k++ {
+				h := hexv(s[i+k])
+				if h < 0 {
+					return nil, false, rawInvalid
+				}
+				v = v<<4 | uint32(h)
+			}
+			i += n
+			if v > 0x10FFFF || (v >= 0xD800 && v <= 0xDFFF) {
+				return nil, false, rawInvalid
+			}
+			out = appendUTF8(out, v)
+		case '0', '1', '2', '3', '4', '5', '6', '7':
+			if i+2 > len(s) {
+				return nil, false, rawInvalid
+			}
+			v := int(e - '0')
+			for k := 0; k < 2; k++ {
+				d := s[i+k]
+				if d < '0' || d > '7' {
+					return nil, false, rawInvalid
+				}
+				v = v<<3 | int(d-'0')
+			}
+			i += 2
+			if v > 255 {
+				return nil, false, rawInvalid
+			}
+			out = append(out, byte(v))
+		default:
+			return nil, false, rawInvalid
+		}
+	}
+	return out, true, rawInvalid
+}
+
+func utf8Len(s string) int {
+	c := s[0]
+	var n int
+	var min uint32
+	var v uint32
+	switch {
+	case c&0xE0 == 0xC0:
+		n, min, v = 2, 0x80, uint32(c&0x1F)
+	case c&0xF0 == 0xE0:
+		n, min, v = 3, 0x800, uint32(c&0x0F)
+	case c&0xF8 == 0xF0:
+		n, min, v = 4, 0x10000, uint32(c&0x07)
+	default:
+		return 0
+	}
+	if len(s) < n {
+		return 0
+	}
+	for k := 1; k < n; k++ {
+		if s[k]&0xC0 != 0x80 {
+			return 0
+		}
+		v = v<<6 | uint32(s[k]&0x3F)
+	}
+	if v < min || v > 0x10FFFF || (v >= 0xD800 && v <= 0xDFFF) {
+		return 0
+	}
+	return n
+}
+
+func appendUTF8(out []byte, v uint32) []byte {
+	switch {
+	case v < 0x80:
+		return append(out, byte(v))
+	case v < 0x800:
+		return append(out, byte(0xC0|v>>6), byte(0x80|v&0x3F))
+	case v < 0x10000:
+		return append(out, byte(0xE0|v>>12), byte(0x80|(v>>6)&0x3F), byte(0x80|v&0x3F))
+	}
+	return append(out, byte(0xF0|v>>18), byte(0x80|(v>>12)&0x3F), byte(0x80|(v>>6)&0x3F), byte(0x80|v&0x3F))
 }
